@@ -19,10 +19,39 @@ fn from_tokens(t: &str) -> String {
 fn gv_tok(v: &GameVersion) -> String {
     format!("{} {} {}", v.major.to_bits(), v.minor as u32, v.patch.map(|p| p.to_string()).unwrap_or("-".into()))
 }
-fn parse(s: &str) -> Option<Result<GameVersion, GameVersionParseError>> {
-    let s = s.to_string();
-    guard(move || GameVersion::from_str(&s))
+type Parsed = Option<Result<GameVersion, GameVersionParseError>>;
+struct Worker { tx: std::sync::mpsc::Sender<String>, rx: std::sync::mpsc::Receiver<Parsed> }
+thread_local! {
+    /// the parser runs on a worker thread: a call that does not return within the deadline is reported (the property says
+    /// "never loops") and the stuck worker is abandoned for a fresh one
+    static WORKER: std::cell::RefCell<Option<Worker>> = const { std::cell::RefCell::new(None) };
+    static HUNG: std::cell::RefCell<Vec<String>> = const { std::cell::RefCell::new(Vec::new()) };
 }
+fn spawn_worker() -> Worker {
+    let (tx, wrx) = std::sync::mpsc::channel::<String>();
+    let (wtx, rx) = std::sync::mpsc::channel::<Parsed>();
+    let _ = std::thread::Builder::new().name("gv-parse".into()).spawn(move || {
+        while let Ok(s) = wrx.recv() {
+            let r = guard(move || GameVersion::from_str(&s));
+            if wtx.send(r).is_err() { break; }
+        }
+    });
+    Worker { tx, rx }
+}
+fn parse(s: &str) -> Parsed {
+    if HUNG.with(|h| h.borrow().iter().any(|x| x == s)) { return None; }
+    WORKER.with(|w| {
+        let mut w = w.borrow_mut();
+        if w.is_none() { *w = Some(spawn_worker()); }
+        let wk = w.as_ref().unwrap();
+        if wk.tx.send(s.to_string()).is_err() { *w = None; return None; }
+        match wk.rx.recv_timeout(std::time::Duration::from_secs(3)) {
+            Ok(r) => r,
+            Err(_) => { HUNG.with(|h| h.borrow_mut().push(s.to_string())); *w = None; None },
+        }
+    })
+}
+fn hung(s: &str) -> bool { HUNG.with(|h| h.borrow().iter().any(|x| x == s)) }
 fn parse_tok(r: &Option<Result<GameVersion, GameVersionParseError>>) -> String {
     match r {
         None => "panic".into(),
@@ -37,10 +66,13 @@ fn ord_tok(o: Ordering) -> &'static str {
 }
 
 fn do_parse(ctx: &mut Ctx, s: &str, pool: &mut Vec<GameVersion>) {
+    // every call that does not return costs its deadline and leaves a spinning thread behind: after five of them the point is made
+    if HUNG.with(|h| h.borrow().len()) >= 5 { ctx.count("gv.parse cases skipped after five calls that did not return"); return; }
     let op = format!("gv.parse {}", tokens(s));
     let r = parse(s);
     ctx.case(&op, &parse_tok(&r));
     match r {
+        None if hung(s) => ctx.violation("c16/parse/loop", "FromStr did not return within 3 seconds", &op, "value or error", "no answer"),
         None => ctx.violation("c16/parse/panic", "FromStr panicked", &op, "value or error", "panic"),
         Some(Ok(v)) => {
             // printed form parses back to an equal version (finite numbers)
